@@ -9,6 +9,7 @@ import (
 
 	"github.com/gcash/bchd/chaincfg"
 
+	"verif/internal/ref"
 	"verif/internal/vf"
 )
 
@@ -160,4 +161,17 @@ func b58ZeroRunBody(r *vf.Rand, fixed []byte, bodyLen, k1, lowByte int) ([]byte,
 		}
 	}
 	return res, true
+}
+
+// specialScalar returns a secp256k1 private scalar whose public point is
+// structurally unusual: k = 1/2 mod n and its negation have an x coordinate of
+// only 166 bits (90 leading zero bits; nothing comparable is reachable by
+// random generation: a coordinate below 2^192 has probability 2^-64).
+func specialScalar(which int) *big.Int {
+	k := new(big.Int).Add(ref.SecN, big.NewInt(1))
+	k.Rsh(k, 1) // (n+1)/2 = 1/2 mod n
+	if which&1 == 1 {
+		k.Sub(ref.SecN, k)
+	}
+	return k
 }
